@@ -14,7 +14,7 @@ package atree
 // unchanged, every touched slab was handed to Store (so the next commit
 // persists it), and storage holds exactly the reachable slabs.
 //
-//vh:prop C10 C05 C03 C09
+//vh:prop C10 C05 C03 C09 C11
 //vh:param leaves 2 3
 //vh:param perleaf 2 2
 //vh:param prefill 1 2
@@ -70,7 +70,35 @@ func VH_C10_ChildInMultiSlabParent() {
 		leavesBefore = len(r.childrenHeaders)
 	}
 	inlinedBefore := h.Inlined()
-	switch vhChoose("op", 6) {
+	op := vhChoose("op", 7)
+	if op == 6 {
+		// the child is overwritten by ANOTHER nested container: the old one is handed
+		// back as an independent stored value (C11), the new one takes its place
+		repl, _ := NewArray(logst, addr, vTypeInfo{id: 42})
+		_ = repl.Append(vElem{tag: 900, size: vhRange32("replsz", 1, 300)})
+		replVID := repl.ValueID()
+		old, err := parent.Set(uint64(pos), repl)
+		vhAssert(err == nil, "child overwritten by another container")
+		if err != nil {
+			return
+		}
+		id, isRef := old.(SlabIDStorable)
+		vhAssert(isRef, "overwritten child is handed back as a reference to a stored value")
+		if isRef {
+			oa, oerr := NewArrayWithRootID(logst, SlabID(id))
+			vhAssert(oerr == nil && oa.Count() == uint64(len(cm)) && oa.ValueID() == childVID, "overwritten child reloads with its content and identity")
+		}
+		// the old handle no longer reaches the parent
+		aerr := h.Append(vElem{tag: 901, size: vhRange32("stalesz", 1, 300)})
+		vhAssert(aerr == nil, "detached child stays usable")
+		vhCheckDirtyMarks(logst, snap, "overwrite by a container: dirty marks")
+		vhCheckNested(parent, addr, pm, []uint64{900}, replVID, "after overwrite by a container")
+		vhDispose(storage, old)
+		vhAssert(vhStorageSlabCount(storage) == vhArraySlabCount(storage, rootID), "after disposing of the old child: no leaked or dangling slabs")
+		vhReach("multislab-nested-replaced")
+		return
+	}
+	switch op {
 	case 0:
 		err := h.Append(vElem{tag: tag, size: vhRange32("csz", 1, 400)})
 		vhAssert(err == nil, "child append")
